@@ -430,6 +430,25 @@ pub fn cfg_strategy(depth: u32) -> BoxedStrategy<Cfg> {
     .boxed()
 }
 
+/// Overlays with the read-only EmbeddedFS (fixture) as a lower layer: "embedded assets that can
+/// be overridden at run time".
+pub fn emb_overlay_cfg() -> BoxedStrategy<Cfg> {
+    prop_oneof![
+        4 => Just(Cfg::Ovl(vec![Cfg::Mem, Cfg::Emb])),
+        1 => Just(Cfg::Ovl(vec![Cfg::Phys, Cfg::Emb])),
+        2 => Just(Cfg::Ovl(vec![Cfg::Mem, Cfg::Mem, Cfg::Emb])),
+        1 => Just(Cfg::Ovl(vec![Cfg::Mem, Cfg::Emb, Cfg::Mem])),
+        1 => Just(Cfg::Alt(Box::new(Cfg::Ovl(vec![Cfg::Mem, Cfg::Emb])), 0)),
+        1 => Just(Cfg::Ovl(vec![Cfg::Alt(Box::new(Cfg::Mem), 1), Cfg::Emb])),
+    ]
+    .boxed()
+}
+
+/// `base`, and now and then an overlay over the embedded fixture
+pub fn with_emb(base: BoxedStrategy<Cfg>) -> BoxedStrategy<Cfg> {
+    prop_oneof![12 => base, 1 => emb_overlay_cfg()].boxed()
+}
+
 /// A layer of an overlay: mostly a plain backend, sometimes a nested stack.
 pub fn layer_strategy(depth: u32) -> BoxedStrategy<Cfg> {
     if depth == 0 {
